@@ -36,6 +36,9 @@ func checkC06(c *Ctx, r *Report) {
 	c06G3(c, r, a)
 	c06G4(c, r, a)
 	c06Once(c, r, a)
+	r.rule("C06.ALLSELS", "the selection walker's dispatching loop has no exit other than the exhaustion of the selection list")
+	c06AllSels(c, r, a, "C06.ALLSELS")
+	importRulesFrom(c, r, "C03", c03Rec, "C06.APPLYONCE", "a fragment is applied to one object once (the visited-set rule of C03.EXPO on the spread -> fragment edge, with the set the caller handed down - a set allocated in the callee is not seen by the sibling selections): applied twice, a failing field inside it yields two entries for one position, or a value next to its error entry", "C03.EXPO")
 }
 
 func c06G5(c *Ctx, r *Report, a *Anchors) {
